@@ -20,14 +20,94 @@ GEN_DISTS = {
     "standard_normal": lambda g, size, chunks: g.standard_normal(size=size, chunks=chunks),
     "exponential": lambda g, size, chunks: g.exponential(2.0, size=size, chunks=chunks),
     "binomial": lambda g, size, chunks: g.binomial(10, 0.3, size=size, chunks=chunks),
+    "gamma": lambda g, size, chunks: g.gamma(2.0, 1.5, size=size, chunks=chunks),
+    "beta": lambda g, size, chunks: g.beta(2.0, 3.0, size=size, chunks=chunks),
+    "laplace": lambda g, size, chunks: g.laplace(0.0, 1.0, size=size, chunks=chunks),
+    "geometric": lambda g, size, chunks: g.geometric(0.3, size=size, chunks=chunks),
+    "choice-int": lambda g, size, chunks: g.choice(10, size=size, chunks=chunks),
+    "choice-array-p": lambda g, size, chunks: g.choice(np.arange(5.0), size=size, chunks=chunks, p=np.array([0.1, 0.2, 0.3, 0.2, 0.2])),
 }
+BITGENS = ["PCG64", "MT19937", "Philox", "SFC64"]
 RS_DISTS = {
     "random_sample": lambda g, size, chunks: g.random_sample(size, chunks=chunks),
     "normal": lambda g, size, chunks: g.normal(1.0, 2.0, size=size, chunks=chunks),
     "randint": lambda g, size, chunks: g.randint(0, 100, size=size, chunks=chunks),
     "poisson": lambda g, size, chunks: g.poisson(3.0, size=size, chunks=chunks),
     "uniform": lambda g, size, chunks: g.uniform(-1, 3, size=size, chunks=chunks),
+    "choice-int": lambda g, size, chunks: g.choice(10, size=size, chunks=chunks),
+    "gamma": lambda g, size, chunks: g.gamma(2.0, 1.5, size=size, chunks=chunks),
 }
+
+
+def alive_together(chk, da, rng):
+    """random arrays that differ in ONE ingredient of the realization (chunk boundaries at equal block count, bit generator kind,
+    seed, distribution parameter), each computed ALONE first, then all built and computed while the others are alive: each must
+    reproduce the realization it has alone, and so must differences of pairs"""
+    import gc
+    n = 120 if chk.tier == "thorough" else 16
+    for it in range(n):
+        seed = rng.randint(0, 10 ** 6)
+        size = rng.choice([(10,), (12,), (4, 6)])
+        if len(size) == 1:
+            layouts = [((5, size[0] - 5),), ((4, size[0] - 4),), ((6, size[0] - 6),), ((size[0],),), ((3, 3, size[0] - 6),), ((2, 4, size[0] - 6),)]
+        else:
+            layouts = [((2, 2), (3, 3)), ((1, 3), (3, 3)), ((2, 2), (2, 4)), ((4,), (1, 2, 3)), ((4,), (3, 2, 1))]
+        dname = rng.choice(["normal", "random", "integers", "choice-int", "standard_normal"])
+        members = []
+        for lay in layouts:
+            members.append((f"default_rng({seed}) chunks={lay}", lambda lay=lay: GEN_DISTS[dname](da.random.default_rng(seed), size, lay)))
+        for bg in BITGENS:
+            members.append((f"Generator({bg}({seed})) chunks={layouts[0]}",
+                            lambda bg=bg: GEN_DISTS[dname](da.random.Generator(getattr(np.random, bg)(seed)), size, layouts[0])))
+        members.append((f"default_rng({seed + 1}) chunks={layouts[0]}", lambda: GEN_DISTS[dname](da.random.default_rng(seed + 1), size, layouts[0])))
+        if dname in RS_DISTS:
+            for lay in layouts[:3]:
+                members.append((f"RandomState({seed}) chunks={lay}", lambda lay=lay: RS_DISTS[dname](da.random.RandomState(seed), size, lay)))
+        solo = {}
+        for label, mk in members:
+            try:
+                with warnings.catch_warnings():
+                    warnings.simplefilter("ignore")
+                    a = mk()
+                    solo[label] = (a.chunks, a.compute(scheduler="sync"))
+            except Exception as e:  # noqa: BLE001
+                chk.count("together:skipped:" + type(e).__name__)
+            a = None
+            gc.collect()
+        alive = []
+        for label, mk in members:
+            if label not in solo:
+                continue
+            with warnings.catch_warnings():
+                warnings.simplefilter("ignore")
+                a = mk()
+                alive.append((label, a))
+                got = a.compute(scheduler="sync")
+            chk.count("together:" + dname)
+            chk.case(("together", dname, seed, size, label), nontrivial=True, sample={"dist": dname, "member": label} if it < 1 and len(alive) < 3 else None)
+            problems = []
+            if a.chunks != solo[label][0]:
+                problems.append(f"built with chunks {solo[label][0]} but reports {a.chunks} while other arrays from the same seed are alive")
+            if got.shape != solo[label][1].shape or not np.array_equal(got, solo[label][1]):
+                problems.append("rebuilding with the same seed, shape and chunks while other random arrays are alive gives another realization")
+            if len(alive) > 1:
+                l0, a0 = alive[rng.randrange(len(alive) - 1)]
+                try:
+                    with warnings.catch_warnings():
+                        warnings.simplefilter("ignore")
+                        dgot = (a - a0).compute(scheduler="sync")
+                    if not np.allclose(dgot, solo[label][1] - solo[l0][1]):
+                        problems.append(f"(this - [{l0}]) is not computed from the two realizations")
+                except Exception as e:  # noqa: BLE001
+                    problems.append(f"difference with [{l0}] raises {type(e).__name__}")
+            if problems:
+                chk.violation("; ".join(problems[:2]), {"dist": dname, "seed": seed, "size": size, "member": label,
+                                                        "alive": [l for l, _ in alive[:-1]]},
+                              signature={"class": "realization", "kind": "alive-together", "problem": problems[0][:30], "dist": dname})
+            else:
+                chk.traces_validated += 1
+        del alive
+        gc.collect()
 
 
 def derived(rng, x, v):
@@ -55,15 +135,18 @@ def run(chk: Check):
     chk.rule = ("distributions x {Generator, RandomState} x seeds x shapes x chunkings: the array is computed (the realization), computed "
                 "again, rebuilt from the same seed, round-tripped through cloudpickle; then slices, rechunks, transposes, elemwise "
                 "combinations, reductions, scans of it (optimized and fused) are computed in a shuffled order and compared with the same "
-                "NumPy function of that one realization; non-trivial = array with more than one block")
+                "NumPy function of that one realization; non-trivial = array with more than one block.  Alive-together family: arrays differing in "
+                "one ingredient (chunk boundaries at equal block count, bit generator kind PCG64/MT19937/Philox/SFC64, seed) are computed alone, "
+                "then rebuilt while all others are alive: same chunks, same realization, differences of pairs computed from both realizations")
     chk.assumptions = ["NumPy's SeedSequence / bit generators are an oracle (the realization itself is not compared with NumPy's stream)"]
     chk.run_proofs()
     model_family(chk, da)
     rng = chk.rng
+    alive_together(chk, da, rng)
     n = 2500 if chk.tier == "thorough" else 160
     for it in range(n):
-        kind = rng.choice(["generator", "generator", "randomstate"])
-        dists = GEN_DISTS if kind == "generator" else RS_DISTS
+        kind = rng.choice(["generator", "generator", "randomstate", "generator:" + rng.choice(BITGENS)])
+        dists = GEN_DISTS if kind.startswith("generator") else RS_DISTS
         dname = rng.choice(sorted(dists))
         seed = rng.randint(0, 10 ** 6)
         rank = rng.choice([1, 2, 2, 3])
@@ -71,7 +154,10 @@ def run(chk: Check):
         chunks = tuple(progs.rand_chunks_for(rng, s) for s in shape)
 
         def make():
-            g = da.random.default_rng(seed) if kind == "generator" else da.random.RandomState(seed)
+            if kind.startswith("generator:"):
+                g = da.random.Generator(getattr(np.random, kind.split(":")[1])(seed))
+            else:
+                g = da.random.default_rng(seed) if kind == "generator" else da.random.RandomState(seed)
             return dists[dname](g, shape, chunks)
 
         desc = {"kind": kind, "dist": dname, "seed": seed, "shape": shape, "chunks": chunks}
@@ -113,7 +199,7 @@ def run(chk: Check):
             if not np.array_equal(x.compute(scheduler="sync"), v):
                 problems.append("realization changed after derived computations")
         if problems:
-            chk.violation("; ".join(problems[:3]), desc, signature={"class": "realization", "kind": kind, "problem": problems[0][:30]})
+            chk.violation("; ".join(problems[:3]), desc, signature={"class": "realization", "kind": kind, "problem": problems[0][:30], "dist": dname})
 
 
 def replay(path):
@@ -157,7 +243,7 @@ def model_family(chk, da):
             rank = rng.choice([1, 2, 2, 3])
             shape = tuple(rng.choice([1, 2, 3, 5, 8]) for _ in range(rank))
             chunks = tuple(progs.rand_chunks_for(rng, s) for s in shape)
-            dname = rng.choice(sorted(GEN_DISTS))
+            dname = rng.choice(sorted(d for d in GEN_DISTS if not d.startswith("choice")))     # Random._info nodes (the model's scope)
             before = ss.n_children_spawned
             with warnings.catch_warnings():
                 warnings.simplefilter("ignore")
